@@ -455,6 +455,7 @@ func (m *Machine) branch(c *Term) bool {
 	}
 	switch {
 	case tOK && fOK:
+		m.w.forkSite(m.whereShort(m.cur))
 		m.w.pushWithModel(m, 0, fModel)
 		m.trail = append(m.trail, 1)
 		m.pos++
